@@ -28,7 +28,8 @@ RULE = ('lines: sequences of server lines over an abstract alphabet (REJECTED wi
         'under a scratch $HOME, plus cookie challenges this client cannot answer (unknown cookie id, no keyring); oracle '
         'S5: the handshake completes whenever the server accepts a mechanism the client can carry through, otherwise the '
         'client closes and never claims success. Non-trivial = the sequence contains a valid OK or '
-        'moves past the first mechanism; distinct = distinct case JSON.')
+        'moves past the first mechanism; distinct = distinct case JSON. In every second cookie handshake the keyring directory is '
+        'a symbolic link to a private directory; challenges come in lower- or upper-case hex.')
 ASSUMPTIONS = ['an exception escaping dataReceived counts as connection loss (what the reactor does)',
                'the reference server actor is the trusted statement of a spec-conforming server']
 
@@ -403,6 +404,10 @@ class RefServer:
             return self._send(b'ERROR "expected BEGIN"')
 
 
+def _keyring_is_link(case):
+    return case.get('cookie', 'ok') != 'no-keyring' and (len(case['accept']) + (case['external'] == 'data')) % 2 == 0
+
+
 def run_handshake(case):
     scratch = tempfile.mkdtemp(prefix='verif-c07-')
     saved_home = os.environ.get('HOME')
@@ -410,6 +415,11 @@ def run_handshake(case):
     out = []
     try:
         log = {'authed': 0}
+        if _keyring_is_link(case):
+            # the keyring directory is reached through a symbolic link (a home directory laid out by a configuration
+            # manager): the directory it leads to is private, which is what counts (libdbus stat()s it too)
+            os.mkdir(os.path.join(scratch, 'real-keyrings'), 0o700)
+            os.symlink('real-keyrings', os.path.join(scratch, '.dbus-keyrings'))
         c = _client(case['unix'], log, _pref(case))
         srv = RefServer(case['accept'], case['neg'].encode(), os.path.join(scratch, '.dbus-keyrings'),
                         case['nonce'].encode(), case['external'], case.get('cookie', 'ok'))
